@@ -1005,13 +1005,28 @@ def spell(d, name, spelling):
     raise ValueError(spelling)
 
 
-def resolve_case(world, d, eb, ec, em, ech, entry, spelling="absolute", as_str=False):
+UUIDS = {"bin": "a976e418-c8b8-4d24-be47-d05120b18341", "cbin": "b1c2d3e4-0000-4d24-be47-d05120b18342",
+         "ch": "c0ffee00-1111-4d24-be47-d05120b18343", "meta": "deadbeef-2222-4d24-be47-d05120b18344"}
+# dataset-UUID naming layouts _get_companion_file knows how to cross (ONE cache / SDSC): which files carry a UUID
+LAYOUTS = {"plain": (), "shared_uuid": ("bin", "cbin", "ch", "meta"), "distinct_uuids": ("bin", "cbin", "ch", "meta"),
+           "uuid_on_data_only": ("bin", "cbin"), "uuid_on_companions_only": ("ch", "meta")}
+
+
+def layout_paths(d, stem, layout):
+    fp = scenario_paths(d, stem)
+    for k in LAYOUTS[layout]:
+        u = UUIDS["bin"] if layout == "shared_uuid" else UUIDS[k]
+        fp[k] = Path(d) / ("%s.%s%s" % (stem, u, SUFFIX[k]))
+    return fp
+
+
+def resolve_case(world, d, eb, ec, em, ech, entry, spelling="absolute", as_str=False, layout="plain"):
     """Reader(<entry point, spelled in a given way>): which data file it settles on (compared with the expected
     file by os.path.samefile, not by spelling), outcome class, shape and values against the recording."""
     spikeglx, _ = _imports()
     d = Path(d)
     d.mkdir(parents=True, exist_ok=True)
-    fp = scenario_paths(d, world.stem)
+    fp = layout_paths(d, world.stem, layout)
     if eb:
         fp["bin"].write_bytes(world.orig[1])
     if ec:
@@ -1025,6 +1040,12 @@ def resolve_case(world, d, eb, ec, em, ech, entry, spelling="absolute", as_str=F
     arg = pstr if as_str else Path(pstr)
     kw = {} if em else dict(nc=world.nc, ns=world.ns, fs=FS)
     obs = {"problems": []}
+    # what the constructor's own existence tests see (the model's inputs): the .meta entry point looks for
+    # <meta name>.with_suffix('.bin'/'.cbin') only; the .ch / .meta companions are looked up UUID-aware
+    if entry == 2:
+        obs["seen"] = [int(target.with_suffix(".bin").exists()), int(target.with_suffix(".cbin").exists()), em, ech]
+    else:
+        obs["seen"] = [eb, ec, em, ech]
     old_cwd = os.getcwd()
     try:
         if cwd is not None:
@@ -1060,6 +1081,15 @@ def resolve_case(world, d, eb, ec, em, ech, entry, spelling="absolute", as_str=F
             if not ok:
                 obs["problems"].append("opened through %r but shape %s / content differ from the recording %s" % (
                     pstr, tuple(sr.shape) if hasattr(sr, "shape") else None, (world.ns, world.nc)))
+            # a compressed recording that the reader opened must also decompress (same companions)
+            if ok and layout != "plain" and sr.is_mtscomp and em:
+                try:
+                    got = sr.decompress_to_scratch(scratch_dir=d / "scratch")
+                    if Path(got).read_bytes() != world.orig[1]:
+                        obs["problems"].append("decompress_to_scratch of the opened recording is not the original binary")
+                except FileNotFoundError as e:
+                    obs["uuid_decompress"] = "Reader(%r) opened the compressed recording but decompress_to_scratch raised %r" % (
+                        pstr, e)
             sr.close()
         return obs
     finally:
@@ -1244,14 +1274,18 @@ def _exercise(ctx, root):
                         not (entry == 1 and not ech)
                     k0 = (bits * 3 + entry + w) % len(SPELLINGS)
                     # in-domain cases: every spelling of the path; others: one spelling, rotating
-                    for sp in (SPELLINGS if (in_domain or ctx.thorough()) else [SPELLINGS[k0]]):
+                    combos = [(sp, "plain") for sp in (SPELLINGS if (in_domain or ctx.thorough()) else [SPELLINGS[k0]])]
+                    if in_domain or ctx.thorough():
+                        combos += [(SPELLINGS[(k0 + j) % len(SPELLINGS)], lay) for j, lay in enumerate(LAYOUTS) if lay != "plain"]
+                    for sp, lay in combos:
                         as_str = (bits + entry + SPELLINGS.index(sp)) % 2 == 0
-                        d = wd / ("res%d_%d_%s" % (bits, entry, sp))
+                        d = wd / ("res%d_%d_%s_%s" % (bits, entry, sp, lay))
                         desc = {"kind": "resolve", "world": wdesc, "bin": eb, "cbin": ec, "meta": em, "ch": ech,
-                                "entry": [".bin", ".cbin", ".meta"][entry], "spelling": sp, "str_path": as_str}
+                                "entry": [".bin", ".cbin", ".meta"][entry], "spelling": sp, "str_path": as_str,
+                                "naming": lay}
                         obs = guarded(ctx, "Reader(%s) could not be observed" % desc["entry"], desc,
                                       {"kind": "resolve_exception"},
-                                      lambda: resolve_case(world, d, eb, ec, em, ech, entry, sp, as_str))
+                                      lambda: resolve_case(world, d, eb, ec, em, ech, entry, sp, as_str, lay))
                         for extra in (d, wd / (d.name + "_link"), wd / (d.name + "_filelinks")):
                             if extra.is_symlink():
                                 extra.unlink()
@@ -1259,19 +1293,26 @@ def _exercise(ctx, root):
                                 shutil.rmtree(extra, ignore_errors=True)
                         if obs is None:
                             continue
+                        uuid_split = lay in ("distinct_uuids", "uuid_on_data_only", "uuid_on_companions_only")
                         if in_domain and obs["outcome"] not in (1, 2):
-                            ctx.fail("Reader(%s, %s) did not open the recording (outcome %s)" % (
-                                desc["entry"], sp, obs["outcome"]), desc, {"kind": "resolve"})
+                            ctx.fail("Reader(%s, %s, naming %s) did not open the recording (outcome %s)" % (
+                                desc["entry"], sp, lay, obs["outcome"]), desc,
+                                {"kind": "uuid_meta_entry" if (uuid_split and entry == 2 and obs["outcome"] == 3)
+                                 else "resolve"})
+                        if obs.get("uuid_decompress"):
+                            ctx.fail(obs["uuid_decompress"], desc, {"kind": "uuid_decompress" if uuid_split else "resolve"})
                         for p in obs["problems"]:
                             ctx.fail(p, desc, {"kind": "resolve"})
-                        inputs.append([0, eb, ec, em, ech, entry])
+                        seb, sec, sem, sech = obs["seen"]
+                        inputs.append([0, seb, sec, sem, sech, entry])
                         outputs.append([max(obs["file"], 0) if obs["outcome"] in (1, 2, 3) else
-                                        _model_file(eb, ec, entry), obs["outcome"]])
+                                        _model_file(seb, sec, entry), obs["outcome"]])
+                        dist["resolve_naming_" + lay] = dist.get("resolve_naming_" + lay, 0) + 1
                         descr.append(desc)
                         dist["resolve"] += 1
                         dist["resolve_" + sp] = dist.get("resolve_" + sp, 0) + 1
                         if in_domain:
-                            nontrivial.add(("resolve", bits, entry, sp))
+                            nontrivial.add(("resolve", bits, entry, sp, lay))
             # ---------------------------------------------------- procedures with faults
             scs = gen_scenarios(ctx, world)
             if not ctx.thorough():
@@ -1441,12 +1482,12 @@ def replay(ctx, data):
             if inp["kind"] == "resolve":
                 e = [".bin", ".cbin", ".meta"].index(inp["entry"])
                 obs = resolve_case(world, root / "r", inp["bin"], inp["cbin"], inp["meta"], inp["ch"], e,
-                                   inp.get("spelling", "absolute"), inp.get("str_path", False))
+                                   inp.get("spelling", "absolute"), inp.get("str_path", False), inp.get("naming", "plain"))
                 print("implementation:", obs)
-                out = [max(obs["file"], 0) if obs["outcome"] in (1, 2, 3) else _model_file(inp["bin"], inp["cbin"], e),
+                seen = obs.get("seen", [inp["bin"], inp["cbin"], inp["meta"], inp["ch"]])
+                out = [max(obs["file"], 0) if obs["outcome"] in (1, 2, 3) else _model_file(seen[0], seen[1], e),
                        obs["outcome"]]
-                ids = common.coq_mismatches(PROP, HEADER, [common.flat_cases_term(
-                    0, [0, inp["bin"], inp["cbin"], inp["meta"], inp["ch"], e], out)])
+                ids = common.coq_mismatches(PROP, HEADER, [common.flat_cases_term(0, [0] + list(seen) + [e], out)])
                 print("kernel-evaluated model agrees with implementation:", not ids)
                 rc = 1 if (obs["problems"] or ids or obs["outcome"] not in (1, 2)) else 0
             else:
